@@ -1399,3 +1399,44 @@ def check_listing_writer_reentrant(db, rep, rule):
               "orc_compiler_append_code writes the %s `%s`: two compiles running at the same time format their lines into the same storage, and the "
               "listing one of them returns contains lines (or half lines) of the other - it no longer is the program of its machine code" %
               ("static buffer" if bad else "", bad[1] if bad else ""), line=bad[0].line if bad else None)
+
+
+def check_listing_lines_terminated(db, rep, rule):
+    """The x86 back ends keep the text of the instructions they emit in a list and append it to the listing in one block, after
+    everything that was written directly with ORC_ASM_CODE (comments, labels, directives).  A directly written fragment that
+    does not end in a newline is therefore continued by WHATEVER comes next - and where nothing more is written directly, by the
+    first instruction of the deferred block, which disappears into a comment: the listing assembles to a program that lacks an
+    instruction the machine code has.  In the x86 translation units every ORC_ASM_CODE format ends with a newline, unless the very
+    next listing write in the same basic block continues the line."""
+    from rules_common import where
+    n = 0
+    for tub in ("orcx86", "orcx86insn", "orcprogram-x86", "orcprogram-sse", "orcprogram-avx", "orcprogram-mmx", "orcrules-sse", "orcrules-avx",
+                "orcrules-mmx", "orcsse", "orcmmx", "orcavx"):
+        try:
+            tu = db.tu(tub)
+        except Exception:
+            continue
+        for f in tu.main_functions():
+            calls = [c for c in {c.id: c for c in f.calls()}.values() if c.name == "orc_compiler_append_code"]
+            for c in calls:
+                a = c.args()
+                lit = strip_casts(a[1]) if len(a) > 1 else None
+                if lit is None or lit.k != "StringLiteral":
+                    continue
+                n += 1
+                txt = lit.get("str", "") or ""
+                ok = txt.endswith("\n") or txt.endswith("\\n")
+                if not ok:
+                    pos = f.pos(c)
+                    if pos is not None:
+                        nxt = [e for e in f.blocks[pos[0]].el[pos[1] + 1:] if e.k == "CallExpr" and e.name and e.id != c.id]
+                        ok = bool(nxt) and nxt[0].name == "orc_compiler_append_code"
+                if not ok:
+                    rep.saw(f)
+                rep.check(ok, rule, where(f), "%s@%s" % (f.name, c.line), "a directly written listing fragment ends its line",
+                          "%s writes `%s` into the listing (line %s) without a newline and nothing in the same block continues the line: the next thing "
+                          "appended - the first instruction of the deferred instruction text - lands on that line; after a `#` it is a comment, and the "
+                          "assembled listing lacks an instruction the machine code has" % (f.name, txt[:50].replace("\n", "\\n"), c.line), line=c.line)
+    if n < 15:
+        raise AnalysisBroken("only %d direct listing writes found in the x86 back ends" % n)
+    return n
